@@ -164,7 +164,7 @@ CLAIMED["C04"] = dict(
 
 CLAIMED["C15"] = dict(
     category="translation_validation", design="DESIGN.md §4 C15",
-    technique="Lean 4 theorem for the alpha/beta split of a summed spin-orbital index and the relabelling of targets (spinRef_sound) + per-run validation of integrate_spin / transform_to_spatial_orbitals against the Lean-built reference by the proved checker",
+    technique="Lean 4 theorems for the alpha/beta split of a summed spin-orbital index and the relabelling of targets (spinRef_sound) and for the restricted relabelling beta -> alpha (forgetSpin_sound) + per-run validation of integrate_spin / transform_to_spatial_orbitals against the Lean-built reference by the proved checker",
     text="spinRef (Lean model) relabels the target indices with the requested spins and splits every summed spin-orbital index into its "
          "alpha and beta part; spinRef_sound proves that its value at any assignment of the labelled targets equals the value of the "
          "spin-orbital expression at the relabelled assignment, for all orbital models and tensor values (adm_split, splitIdx_sound). "
@@ -242,7 +242,7 @@ CLAIMED["C02"] = dict(
 
 CLAIMED["C03"] = dict(
     category="exploration", design="DESIGN.md §4 C03",
-    technique="exact determinant-space construction of intermediate states as power series (exploration over random model Hamiltonians) + structural clauses (transposition, ground-state shift, MVP prefactors) decided by the proved Lean checker checkEquiv; block truncation table against its closed form",
+    technique="exact determinant-space construction of intermediate states as power series (exploration over random model Hamiltonians) + clauses decided for all Hamiltonians by the proved Lean Wick model / checker checkEquiv (operator-level assembly of the lowest-class blocks to second order relative to the code's intermediate states, transposition, ground-state shift, MVP prefactors) + spec-level theorems isr_matrix_selfadjoint / isr_orthonormal_series; block truncation table against its closed form",
     text="Main clause: every enumerated block/order of every variant (pp, ip, ea, dip, dea), both subtract_gs flavours, is evaluated "
          "with the integrals, orbital energies and ground-state coefficients of random canonical-HF determinant-space models and "
          "must equal, exactly, the same-order coefficient of <I|H-E0|J> over intermediate states constructed explicitly (normalised "
@@ -258,7 +258,7 @@ CLAIMED["C03"] = dict(
 
 CLAIMED["C05"] = dict(
     category="exploration", design="DESIGN.md §4 C05",
-    technique="exact determinant-space matrix elements between explicitly constructed intermediate states contracted with random amplitude vectors (exploration over random models) + ground-state-shift clause and default-operator clause decided by the proved Lean checker checkEquiv",
+    technique="exact determinant-space matrix elements between explicitly constructed intermediate states contracted with random amplitude vectors (exploration over random models) + clauses decided for all Hamiltonians / operator matrices / amplitude vectors by the proved Lean Wick model and checker checkEquiv (operator-level assembly of transition moments and diagonal expectation blocks of the lowest class to second order, ground-state shift, default operator, mixed left/right variants)",
     text="Main clause: every enumerated expectation-value contribution (variants pp, ip, ea, dip, dea; diagonal and coupling blocks; "
          "one- and two-particle operators; both subtract_gs flavours) and transition moment (default and higher-rank operator strings) "
          "is evaluated with model integrals, ground-state coefficients, a random operator matrix and random amplitude vectors and must "
